@@ -433,18 +433,31 @@ def _astype(ex, path, args, kwargs, node, fn):
     return args[0]
 
 
-@model("<Arr>.sum", "numpy.sum")
+@model("<Arr>.sum", "numpy.sum", doc="x.sum(): Sum(x, n) with Sum(x,0)=0, Sum(x,k+1)=Sum(x,k)+x[k]; two sums over pointwise equal "
+                                     "terms are equal (sum congruence, Lean: Finset.sum_congr)")
 def _sum(ex, path, args, kwargs, node, fn):
     a = args[0]
+    if isinstance(a, Obj) and a.cls == "Quantity":
+        a0, u_ = _unwrap_q(a)
+        return _rewrap(_sum(ex, path, [a0], kwargs, node, fn), u_)
     if a.ndim != 1:
         raise Unsupported("sum of n-d")
+    if kwargs.get("axis") not in (None, -1, 0):
+        raise Unsupported("sum over an axis")
     S = fresh_fn("sum", z3.IntSort(), z3.RealSort() if a.dtype == "real" else z3.IntSort())
     k = z3.Int(fresh_name("k"))
     term = (lambda j: z3.If(a.at(j), 1, 0)) if a.dtype == "bool" else a.at
-    path.assume(S(0) == 0, q_forall([k], b_and(0 <= k, k < a.shape[0]), S(k + 1) == S(k) + term(k), pats=[S(k + 1)]))
+    n = to_z3(a.shape[0])
+    path.assume(S(0) == 0, q_forall([k], b_and(0 <= k, k < n), S(k + 1) == S(k) + term(k), pats=[S(k + 1)]))
     if a.dtype == "bool":
-        path.assume(q_forall([k], b_and(0 <= k, k <= a.shape[0]), b_and(S(k) >= 0, S(k) <= k), pats=[S(k)]))
-    return S(to_z3(a.shape[0]))
+        path.assume(q_forall([k], b_and(0 <= k, k <= n), b_and(S(k) >= 0, S(k) <= k), pats=[S(k)]))
+    sums = path.ghost.setdefault("sums", [])
+    for (term2, S2, n2, dt2) in sums:
+        if dt2 == ("real" if a.dtype == "real" else "int"):
+            j = z3.Int(fresh_name("j"))
+            path.assume(z3.Implies(z3.And(n == n2, q_forall([j], b_and(0 <= j, j < n), term(j) == term2(j))), S(n) == S2(n2)))
+    sums.append((term, S, n, "real" if a.dtype == "real" else "int"))
+    return S(n)
 
 
 @model("numpy.any")
@@ -497,3 +510,114 @@ def _slice_hi(ex, path, args, kwargs, node, fn):
 @model("slice_base")
 def _slice_base(ex, path, args, kwargs, node, fn):
     return args[0].base
+
+
+# ---- more numpy ------------------------------------------------------------------------------------------------------------
+def _unwrap_q(v):
+    if isinstance(v, Obj) and v.cls == "Quantity":
+        return v.fields["value"], v.fields["unit"]
+    return v, None
+
+
+def _rewrap(v, u_):
+    if u_ is None:
+        return v
+    from contracts.astromodel import quantity
+    return quantity(v, u_)
+
+
+def amin_of(ex, path, a, tag="amin"):
+    m = fresh_real(tag) if a.dtype == "real" else fresh_int(tag)
+    w = fresh_int(tag + "_at")
+    k = z3.Int(fresh_name("k"))
+    n = a.shape[0]
+    path.assume(q_forall([k], b_and(0 <= k, k < n), a.at(k) >= m), 0 <= w, w < n, a.at(w) == m)
+    return m
+
+
+@model("<Arr>.min", "numpy.min", "numpy.amin", doc="x.min(): an element of x that is <= all elements (x non-empty)")
+def _amin(ex, path, args, kwargs, node, fn):
+    a, u_ = _unwrap_q(args[0])
+    if node is not None:
+        ex.ctx.vc(f"min-of-nonempty@{node.lineno}", path, to_z3(a.shape[0]) >= 1, "defined", node.lineno)
+    return _rewrap(amin_of(ex, path, a), u_)
+
+
+@model("numpy.argmax", doc="argmax(x): index of a maximal element (the first one)")
+def _argmax(ex, path, args, kwargs, node, fn):
+    a, u_ = _unwrap_q(args[0])
+    ex.ctx.vc(f"argmax-of-nonempty@{node.lineno}", path, to_z3(a.shape[0]) >= 1, "defined", node.lineno)
+    w = fresh_int("argmax")
+    k = z3.Int(fresh_name("k"))
+    n = a.shape[0]
+    path.assume(0 <= w, w < n, q_forall([k], b_and(0 <= k, k < n), a.at(k) <= a.at(w)),
+                q_forall([k], b_and(0 <= k, k < w), a.at(k) < a.at(w)))
+    return w
+
+
+@model("numpy.sort", doc="sort(x): a non-decreasing rearrangement of x (ghost permutation perm with inverse)")
+def _sort(ex, path, args, kwargs, node, fn):
+    a, u_ = _unwrap_q(args[0])
+    if a.ndim != 1:
+        raise Unsupported("sort of n-d array")
+    n = a.shape[0]
+    perm = fresh_fn("perm", z3.IntSort(), z3.IntSort())
+    inv = fresh_fn("perm_inv", z3.IntSort(), z3.IntSort())
+    r = Arr([n], lambda k: a.at(perm(to_z3(k))), a.dtype, "sorted")
+    k = z3.Int(fresh_name("k"))
+    i = z3.Int(fresh_name("i"))
+    r.facts = list(getattr(a, "facts", [])) + [
+        q_forall([k], b_and(0 <= k, k < n), b_and(0 <= perm(k), perm(k) < n, inv(perm(k)) == k), pats=[perm(k)]),
+        q_forall([i], b_and(0 <= i, i < n), b_and(0 <= inv(i), inv(i) < n, perm(inv(i)) == i), pats=[inv(i)]),
+        q_forall([k], b_and(0 <= k, k < n - 1), a.at(perm(k)) <= a.at(perm(k + 1)), pats=[perm(k)]),
+    ]
+    r.perm, r.perm_inv, r.sorted_from = perm, inv, a
+    path.assume(*r.facts)
+    return _rewrap(r, u_)
+
+
+_prev_concat = LIB["numpy.concatenate"]
+
+
+@model("numpy.concatenate", doc="concatenate((a,b)): a then b (units: both operands in the first one's unit)")
+def _concat_q(ex, path, args, kwargs, node, fn):
+    seq = args[0]
+    if isinstance(seq, PyList) and seq.tail is None and any(isinstance(x, Obj) and x.cls == "Quantity" for x in seq.items):
+        from contracts.astromodel import qval
+        u0 = seq.items[0].fields["unit"]
+        vals = [qval(x, u0) for x in seq.items]
+        return _rewrap(_prev_concat(ex, path, [PyList(vals, None, True)], kwargs, node, fn), u0)
+    return _prev_concat(ex, path, args, kwargs, node, fn)
+
+
+@model("numpy.linspace", doc="linspace(a, b, n)[k] = a + k*(b-a)/(n-1)")
+def _linspace(ex, path, args, kwargs, node, fn):
+    a, b, n = args[0], args[1], args[2]
+    nz = to_z3(n)
+    r = Arr([n], lambda k: to_z3(a, "real") + z3.ToReal(to_z3(k)) * (to_z3(b, "real") - to_z3(a, "real")) / z3.ToReal(nz - 1), "real", "linspace")
+    return r
+
+
+@model("numpy.histogram", doc="histogram(x, bins=edges) -> (H, edges): H[j] = #{i : edges[j] <= x[i] < edges[j+1]} (last bin closed on "
+                              "the right); stated through H[j] > 0 <=> some x[i] lies in bin j, and H[j] >= 0")
+def _histogram(ex, path, args, kwargs, node, fn):
+    x, _u = _unwrap_q(args[0])
+    edges = kwargs.get("bins", args[1] if len(args) > 1 else None)
+    if not isinstance(edges, Arr):
+        raise Unsupported("histogram with an integer bin count")
+    nb = to_z3(edges.shape[0]) - 1
+    H = fresh_arr("hist", 1, "int", [nb])
+    wit = fresh_fn("hist_wit", z3.IntSort(), z3.IntSort())
+    j, i = z3.Int(fresh_name("j")), z3.Int(fresh_name("i"))
+
+    def inbin(xi, jj):
+        return z3.And(edges.at(jj) <= xi, z3.If(jj == nb - 1, xi <= edges.at(jj + 1), xi < edges.at(jj + 1)))
+    H.inbin = inbin
+    H.hist_of = x
+    H.edges = edges
+    facts = [q_forall([j], b_and(0 <= j, j < nb), H.at(j) >= 0, pats=[H.at(j)]),
+             q_forall([j], b_and(0 <= j, j < nb, H.at(j) > 0), b_and(0 <= wit(j), wit(j) < x.shape[0], inbin(x.at(wit(j)), j)), pats=[H.at(j)]),
+             q_forall([j, i], b_and(0 <= j, j < nb, 0 <= i, i < x.shape[0], inbin(x.at(i), j)), H.at(j) > 0)]
+    H.facts = facts
+    path.assume(*facts)
+    return PyList([H, edges], None, True)
